@@ -64,12 +64,15 @@ structure Dir where
   pdoSub : Dict := []
   spcall : Dict := []
   core : Option Core := none
+  /-- coredata.dat exists but cannot be unpickled (`core = none` then): `Environment.__init__` regenerates the
+  configuration from cmd_line.txt on the next `setup --reconfigure` -/
+  corrupt : Bool := false
   cmdline : Option Dict := none
   intro : Option Store := none
   deriving DecidableEq, Repr, Inhabited
 
 /-- the same source tree with an empty build directory -/
-def Dir.emptied (d : Dir) : Dir := { d with core := none, cmdline := none, intro := none }
+def Dir.emptied (d : Dir) : Dir := { d with core := none, corrupt := false, cmdline := none, intro := none }
 
 /-- the persisted triple of the property statement: coredata, cmd_line.txt, option files (and the introspection file) -/
 def Dir.fresh (top sub : Defs) : Dir := { top := top, sub := sub }
@@ -81,6 +84,8 @@ inductive Cmd where
   | wipe (d : Dict)
   | editSet (inSub : Bool) (name : Str) (sp : ObjSpec)
   | editRemove (inSub : Bool) (name : Str)
+  /-- coredata.dat is damaged (truncated) behind meson's back -/
+  | corrupt
   deriving Repr, Inhabited
 
 /-- what the user sees: exit status, and for a (re)configuration the `get_option()` values the build files read -/
@@ -189,7 +194,7 @@ def commitFirst (d : Dir) (selfOpts user : Dict) : Except Err Interp → Dir × 
     if !(checkUnused r.core.store user) then (d, .failed .meson false)     -- dumped, then unlinked again
     else if r.late then (d, .failed .meson true)     -- everything written is taken back (see below)
     else
-      ({ d with core := some r.core, cmdline := some selfOpts, intro := some r.core.store }, .ok r.msgs)
+      ({ d with core := some r.core, corrupt := false, cmdline := some selfOpts, intro := some r.core.store }, .ok r.msgs)
 
 /-- `Environment.__init__` found no coredata.dat: configuration from scratch.  `selfOpts` is
 `self.options.cmd_line_options` (what `write_cmd_line_file` records), the interpreter gets it merged over an
@@ -253,15 +258,22 @@ def step (d : Dir) : Cmd → Dir × Out
   | .setup newD =>
     match d.core with
     | some _ => configure d (dArgs newD)        -- "Directory already configured": mconf.run_impl
-    | none => firstInvocation d newD
+    | none =>
+      if d.corrupt then (d, .failed .meson false)  -- mconf.run_impl -> build.load -> "Coredata file … is corrupted"
+      else firstInvocation d newD
   | .reconfigure newD =>
     match d.core with
     | some c => reconfigure d c newD
-    | none => firstInvocation d newD
+    | none =>
+      -- a corrupt coredata.dat: `Environment.__init__` merges cmd_line.txt into `self.options` and starts from scratch;
+      -- `coredata.save` copies the corrupt file to `.prev`, so a failure puts the corrupt file back
+      if d.corrupt then firstInvocation d (userOpts d newD) else firstInvocation d newD
   | .wipe newD =>
     -- MesonApp.__init__: read_cmd_line_file into self.options, empty the directory, restore cmd_line.txt
-    firstInvocation { d with core := none, intro := none }
+    firstInvocation { d with core := none, corrupt := false, intro := none }
       (match d.cmdline with | some f => mergeCmd f newD | none => newD)
+  | .corrupt =>
+    (if d.core.isSome || d.corrupt then { d with core := none, corrupt := true } else d, .ok [])
   | .configure args => configure d args
   | .editSet inSub name sp =>
     (if inSub then { d with sub := editDefs d.sub name (some sp) } else { d with top := editDefs d.top name (some sp) }, .ok [])
